@@ -24,6 +24,9 @@ add('C07', 'l1', 'Generated key-set variations (absent / null / surplus keys and
     L1_NOTE + 'the suppress_key_warnings build is not covered.')
 add('C08', 'l1', 'Generated keys whose per-locale values differ in kind and member sets (and deliberate count conflicts); the InterpolOrLit computed by the parser is compared with the union over locales of the AST members after substitution.',
     L1_NOTE + 'the typed-builder (compile-time) half needs generated crates.')
+add('C09', 'l1', 'Grammar-aware adversarial mutations of generated projects (delimiters, multi-byte characters, hostile ranges / bounds / counts / references / key names, mutated manifests) run in-process under catch_unwind through parse_locales, the build-script API and the code generator; deep / long values run in child processes with an 8 MiB stack; regression inputs of all earlier panics. Oracle: Ok or a non-empty error, never a panic, abort or signal.',
+    'A child still running after 120 s is inconclusive (exit 2). Stack overflows on 65-130 kB single values are recorded as known finding D9. Coverage-guided byte-level fuzzing (libFuzzer) is the second stage of the thorough tier.',
+    technique='property-based testing with grammar-aware mutation (+ libFuzzer in the thorough tier), crash oracle')
 add('C10', 'l1', 'Metamorphic: repeated loads + in-process code generation (same process, fresh processes), sampled permutations of object-key order, and the same AST printed as JSON / YAML / JSON5 loaded by three feature builds must agree (byte-identical dumps within a format; key tree, diagnostics and evaluated text across formats).',
     'Trusted: the three printers in ser.rs. Integers above i64::MAX are excluded (json5 has no u64).',
     technique='metamorphic property-based testing (permutation / re-run / differential across file formats)')
